@@ -108,6 +108,23 @@ class Square(Polygon):
         return 1
 
 
+class Base2:
+    """Concrete base that keeps unknown attributes; Kid2 adds a required
+    one."""
+    def __init__(self, bx: int,
+                 _yatiml_extra: Optional[collections.OrderedDict] = None
+                 ) -> None:
+        self.bx = bx
+
+
+class Kid2(Base2):
+    def __init__(self, bx: int, kr: float,
+                 _yatiml_extra: Optional[collections.OrderedDict] = None
+                 ) -> None:
+        super().__init__(bx, _yatiml_extra)
+        self.kr = kr
+
+
 class Probe:
     """Document class; its recogniser performs the call under test."""
     CALL = None
@@ -144,6 +161,8 @@ TYPES = {
     'innerx': InnerX, 'list_innerx': List[InnerX],
     'shape': Shape, 'polygon': Polygon, 'square': Square,
     'list_shape': List[Shape],
+    'base2': Base2, 'kid2': Kid2, 'union_kid2_dict': Union[Kid2,
+                                                           Dict[str, int]],
 }
 SCALAR_ARGS = [(), ('str',), ('int',), ('float',), ('bool',), ('none',),
                ('nonetype',), ('int', 'str'), ('float', 'int'),
@@ -160,6 +179,32 @@ TAG_OF = {str: S.TAG_STR, int: S.TAG_INT, float: S.TAG_FLOAT,
 
 class Unspecified(Exception):
     pass
+
+
+def class_tag_rule(v, own_tags):
+    """The tag of a mapping offered as a class: the plain map tag and the
+    class's own tag are fine; a tag from the core schema that is no map is
+    left open; any other tag (another class, an unknown local tag, a tag
+    from another namespace written verbatim or through %TAG) means the node
+    is something else: not recognisable."""
+    if v[2] == S.TAG_MAP or v[2] in own_tags:
+        return None
+    if v[2].startswith('tag:yaml.org,2002:'):
+        raise Unspecified('class mapping with another core tag')
+    return False
+
+
+def duplicate_rule(v, params):
+    """A key that is a parameter of the class (or of a class of the same
+    hierarchy) twice: the loader rejects such a mapping, so it is not
+    recognisable; other keys twice are left open."""
+    keys = [k[2] if k[0] == 's' else None for k, _ in v[1]]
+    dup = {k for k in keys if keys.count(k) > 1}
+    if dup & set(params):
+        return False
+    if len(set(map(str, keys))) != len(keys):
+        raise Unspecified('duplicate keys')
+    return None
 
 
 def recognisable(v, t):
@@ -197,11 +242,13 @@ def recognisable(v, t):
     if t is Inner:
         if v[0] != 'map':
             return False
-        if v[2] not in (S.TAG_MAP, '!Inner'):
-            raise Unspecified('class mapping with another tag')
+        r = class_tag_rule(v, ('!Inner',))
+        if r is not None:
+            return r
+        r = duplicate_rule(v, ('x', 'y'))
+        if r is not None:
+            return r
         keys = [k[2] if k[0] == 's' else None for k, _ in v[1]]
-        if len(set(map(str, keys))) != len(keys):
-            raise Unspecified('duplicate keys')
         d = {k[2]: x for k, x in v[1] if k[0] == 's'}
         if 'x' not in d or not recognisable(d['x'], int):
             return False
@@ -213,24 +260,53 @@ def recognisable(v, t):
         # is a Square
         if v[0] != 'map':
             return False
-        if v[2] not in (S.TAG_MAP, '!Square'):
-            raise Unspecified('class mapping with another tag')
+        r = class_tag_rule(v, ('!Square',))
+        if r is not None:
+            return r
+        r = duplicate_rule(v, ('sx', 'sp', 'sq'))
+        if r is not None:
+            return r
         keys = [k[2] if k[0] == 's' else None for k, _ in v[1]]
-        if len(set(map(str, keys))) != len(keys):
-            raise Unspecified('duplicate keys')
         if None in keys:
             return False
         d = {k[2]: x for k, x in v[1]}
         return set(d) == {'sx', 'sp', 'sq'} and all(
             recognisable(x, int) for x in d.values())
+    if t in (Base2, Kid2):
+        if v[0] != 'map':
+            return False
+        r = class_tag_rule(v, ('!Kid2',) if t is Kid2 else ('!Base2',
+                                                            '!Kid2'))
+        if r is not None:
+            return r
+        r = duplicate_rule(v, ('bx', 'kr'))
+        if r is not None:
+            return r
+        if any(k[0] != 's' or k[1] != S.TAG_STR for k, _ in v[1]):
+            raise Unspecified('key that is no string in a class with extras')
+        d = {k[2]: x for k, x in v[1]}
+        if 'bx' not in d or not recognisable(d['bx'], int):
+            return False
+        is_kid = 'kr' in d and recognisable(d['kr'], float)
+        if v[2] == '!Base2' and is_kid:
+            raise Unspecified('tag naming the less derived class')
+        if t is Kid2 or v[2] == '!Kid2':
+            # (a tag naming Kid2 on something that is no Kid2: a conflict)
+            return is_kid
+        if 'kr' in d and not is_kid:
+            # Base2 itself takes kr as an extra attribute
+            return True
+        return True
     if t is InnerX:
         if v[0] != 'map':
             return False
-        if v[2] not in (S.TAG_MAP, '!InnerX'):
-            raise Unspecified('class mapping with another tag')
+        r = class_tag_rule(v, ('!InnerX',))
+        if r is not None:
+            return r
+        r = duplicate_rule(v, ('x', 'z', 'y'))
+        if r is not None:
+            return r
         keys = [k[2] if k[0] == 's' else None for k, _ in v[1]]
-        if len(set(map(str, keys))) != len(keys):
-            raise Unspecified('duplicate keys')
         d = {k[2]: x for k, x in v[1] if k[0] == 's'}
         for name, typ, req in (('x', int, True), ('z', int, True),
                                ('y', str, False)):
@@ -330,7 +406,7 @@ def do_call(node, call):
 class Env:
     def __init__(self):
         self.load = yatiml.load_function(Probe, Color, Inner, InnerX, Shape,
-                                         Polygon, Square)
+                                         Polygon, Square, Base2, Kid2)
         plain = yatiml.load_function()
         self.ctor = plain.loader('')
 
@@ -457,6 +533,14 @@ SPELL_HINT = {
     '{sx: 1}': (None, 'shape'), '{sx: 1, sp: 2, sq: x}': (None, 'square'),
     '[{sx: 1, sp: 2}, {sx: 1, sp: 2, sq: 3}]': (None, 'list_shape'),
     '[{sx: 1, sp: 2, sq: 3}]': (None, 'list_shape'),
+    '{bx: 1}': (None, 'base2'), '{bx: 1, kr: 1.5}': (None, 'kid2'),
+    '{bx: 1, kr: 1.5, kr: 2.5}': (None, 'base2'),
+    '{bx: 1, kr: 1.0, kr: x}': (None, 'union_kid2_dict'),
+    '{bx: 1, kr: 2}': (None, 'base2'), '{bx: 1, bx: 1, kr: 1.5}': (None, 'kid2'),
+    '!Other {x: 3}': (None, 'inner'), '!InnerX {x: 3}': (None, 'inner'),
+    '!<tag:example.com,2000:x> {x: 3}': (None, 'inner'),
+    '!<tag:example.com,2000:x> {sx: 1, sp: 2, sq: 3}': (None, 'shape'),
+    '!Kid2 {bx: 1, kr: 1.5}': (None, 'base2'), '!Kid2 {bx: 1}': (None, 'base2'),
     '{x: 1, x: 2}': (None, 'inner'), '{x: 1, y: s, y: t}': (None, 'inner'),
     '{x: 1, [p]: 2}': (None, 'inner'), '[{x: 1, x: 1}]': (None, 'list_inner'),
 }
